@@ -14,10 +14,10 @@
 (***************************************************************************)
 EXTENDS Naturals
 
-\* palette (beyond ASCII): e-acute, E-acute, sharp s, lambda, Lambda, euro, CJK "middle",
+\* palette (beyond ASCII): multiplication sign (between E-acute and e-acute, no case), e-acute, E-acute, sharp s, lambda, Lambda, euro, CJK "middle",
 \* U+FFFF, grinning face, U+10FFFF, no-break space, em space, ideographic space,
 \* arabic-indic digit three
-PaletteCase  == {233, 201, 955, 923, 8364, 20013, 65535, 128512, 1114111, 160, 8195, 12288, 1635}
+PaletteCase  == {215, 233, 201, 955, 923, 8364, 20013, 65535, 128512, 1114111, 160, 8195, 12288, 1635}
 PaletteClass == PaletteCase \cup {223}
 
 \* no simple case mapping, a multi-character full upper-case mapping: sharp s, n-apostrophe, j-caron, fi ligature
